@@ -689,6 +689,9 @@ def gen_fault_scripts(tier, seed, variant):
     # the k-th Hash call panics inside an in-place rehash with swaps (every insertion API)
     for i in range(n // 3):
         out.append(gen_map.make_rehash_script(rng, f"fr{seed}_{i}", kind=rng.choice(["map-drop", "map-plain"]), arm="hashpanic_nth"))
+    # ... and deterministically with the first and the LAST bucket still to be re-hashed when it panics (maps and tables)
+    for i in range(n // 4):
+        out.append(gen_map.make_guard_script(rng, f"fg{seed}_{i}", table=(i % 2 == 1)))
     return "".join(out)
 
 def arm_script(rng, blk, p):
